@@ -167,10 +167,8 @@ MUTANTS = [
      "        finally:\n            self._obj.index = original_obj_index\n            parameter.index = original_parameter_index\n            _replace_unique_string_with_none_name([self._obj, parameter], uuids)\n",
      "        finally:\n            pass\n        self._obj.index = original_obj_index\n        parameter.index = original_parameter_index\n        _replace_unique_string_with_none_name([self._obj, parameter], uuids)\n"),
     ("c05-revert-first-load-step", "C05", "pylife/stress/rainflow/fkm_nonlinear.py",
-     "                first_sample = samples[load_steps == load_steps[0]].reset_index(drop=True)
-",
-     "                first_sample = samples[load_steps == 0].reset_index(drop=True)
-"),
+     "                first_sample = samples[load_steps == load_steps[0]].reset_index(drop=True)\n",
+     "                first_sample = samples[load_steps == 0].reset_index(drop=True)\n"),
     ("c13-revert-one-level-multiindex", "C13", "pylife/core/broadcaster.py",
      "            name = index.names[0]  # `index.name` is None for a MultiIndex with a single level\n", "            name = index.name\n"),
     ("c13-revert-collective-copy", "C13", "pylife/stress/collective/load_collective.py",
